@@ -236,6 +236,53 @@ fn check_estimate_clock(ctx: &Ctx, st: &mut Stats) {
     st.count("wall_clock_relative_estimates", 1);
 }
 
+/// Resolution dimension: upload times with sub-millisecond (and sub-second) parts. The estimate is
+/// "upload time plus wait", so moving the upload time by d nanoseconds moves the estimate by exactly
+/// d, and the estimate is never before the upload time (zero-wait histories included).
+fn check_estimate_resolution(ctx: &Ctx, st: &mut Stats) {
+    let mut zero = ChunkTimingStats::new();
+    let mut filled = ChunkTimingStats::new();
+    for wf in [1u8, 4] {
+        for ch in [0u8, 2] {
+            for half in [true, false] {
+                let cuts = vec![(half, wf, ch); 10];
+                let m = vcp_message(&cuts);
+                for cut in 0..10 {
+                    for ty in [ChunkType::Intermediate, ChunkType::End] {
+                        zero.add_timing(characteristics(&m, cut, ty), Duration::milliseconds(0), 1);
+                        filled.add_timing(characteristics(&m, cut, ty), Duration::milliseconds(4_321), 3);
+                    }
+                }
+                for prev in [1usize, 2, 30, 54, 55] {
+                    for (mode, stats) in [("none", None), ("zero_wait_history", Some(&zero)), ("filled", Some(&filled))] {
+                        let at = |ns: i64| ChunkIdentifier::new("KDMX".into(), VolumeIndex::new(17), format!("20240813-123330-{:03}-I", prev), Some(t0() + Duration::nanoseconds(ns)));
+                        let base = guarded(|| estimate_next_chunk_time(&at(0), &m, stats));
+                        for ns in [1i64, 999, 1_000, 999_999, 1_000_001, 123_456_789, 999_999_999] {
+                            st.evaluations += 1;
+                            let got = guarded(|| estimate_next_chunk_time(&at(ns), &m, stats));
+                            let wit = || json!({"op": "estimate_resolution", "waveform": wf, "channel": ch, "half_degree": half, "previous": prev, "stats": mode, "upload_ns_offset": ns});
+                            match (&base, &got) {
+                                (Caught::Ret(Some(b)), Caught::Ret(Some(g))) => {
+                                    if *g - *b != Duration::nanoseconds(ns) {
+                                        ctx.fail("estimate:not_upload_time_plus_wait_at_sub_millisecond_resolution", || format!("prev {prev} stats {mode}: upload time moved by {ns} ns, estimate moved by {:?} ns", (*g - *b).num_nanoseconds()), wit);
+                                    }
+                                    if *g < t0() + Duration::nanoseconds(ns) {
+                                        ctx.fail("estimate:earlier_than_previous_upload", || format!("prev {prev} stats {mode} upload +{ns} ns: {g:?}"), wit);
+                                    }
+                                }
+                                (Caught::Ret(None), Caught::Ret(None)) => {}
+                                (b, g) => ctx.fail("estimate:presence_depends_on_upload_time_resolution", || format!("{b:?} vs {g:?}"), wit),
+                            }
+                        }
+                    }
+                }
+                st.nontrivial(&[b'r', wf, ch, half as u8]);
+            }
+        }
+    }
+    st.count("sub_millisecond_upload_times", 1);
+}
+
 // ---- rolling-window model ------------------------------------------------------------------
 
 const SAMPLES: [(i64, usize); 3] = [(0, 1), (7_000, 2), (60_000, 5)];
@@ -446,6 +493,7 @@ pub fn run(ctx: &'static Ctx) -> (&'static str, Value, Vec<&'static str>) {
     let mut s2 = Stats::new();
     check_estimate_static(ctx, &mut s2);
     check_estimate_clock(ctx, &mut s2);
+    check_estimate_resolution(ctx, &mut s2);
     
     // rolling window: stateright over histories
     let configs: Vec<(u8, usize)> = if thorough { vec![(1, 13), (2, 7), (3, 6)] } else { vec![(1, 11), (2, 5), (3, 4)] };
@@ -557,6 +605,7 @@ pub fn replay(ctx: &'static Ctx, case: &Value) {
             check_mapping(ctx, &cuts, 200, &mut st);
         }
         Some("estimate_clock") => check_estimate_clock(ctx, &mut st),
+        Some("estimate_resolution") => check_estimate_resolution(ctx, &mut st),
         _ => check_estimate_static(ctx, &mut st),
     }
 }
